@@ -66,7 +66,7 @@ func genPlan(t *rapid.T) Plan {
 	}
 	p.EndGap = rapid.SampledFrom(gapChoices).Draw(t, "endgap")
 	p.EndErr = rapid.IntRange(0, 3).Draw(t, "enderr") == 0
-	p.ErrKind = rapid.IntRange(0, 2).Draw(t, "errkind")
+	p.ErrKind = rapid.IntRange(0, 3).Draw(t, "errkind")
 	m := rapid.IntRange(0, 25).Draw(t, "m")
 	for i := 0; i < m; i++ {
 		o := COp{Op: rapid.SampledFrom([]string{"next", "next", "next", "next", "sleep", "sleep"}).Draw(t, "op")}
@@ -166,6 +166,8 @@ func script(p Plan, out *vk.Outcome) error {
 		E = fmt.Errorf("source: upstream call failed: %w", context.Canceled)
 	case 2:
 		E = fmt.Errorf("source: upstream call failed: %w", context.DeadlineExceeded)
+	case 3: // ... or the end marker: a failure all the same, not the end of the source
+		E = fmt.Errorf("source: truncated record: %w", stream.End)
 	}
 	if p.EndErr {
 		src.FinalAt, src.Final = n, E
